@@ -66,6 +66,15 @@ Definition decl_key (d : decl) : key := (d_pkg d, d_name d).
 Record rparam := mkRParam {
   rp_name : str; rp_loc : loc; rp_alias : option str; rp_type : texpr; rp_validate : option str }.
 
+(* a parameter of the method as it is written in the source: a context.Context parameter (never
+   annotated; it exists for the generated code only) or an annotated parameter.  Every emitter
+   skips the context parameters wherever they stand ([if param.IsContext { continue }]) and keeps
+   the others in source order: the route of the model carries [spec_params] of the source list *)
+Inductive sparam := SCtx (name : str) | SAnn (p : rparam).
+
+Definition spec_params (l : list sparam) : list rparam :=
+  flat_map (fun x => match x with SCtx _ => [] | SAnn p => [p] end) l.
+
 Record route := mkRoute {
   r_name : str; r_verb : str; r_path : str; r_hidden : bool;
   r_params : list rparam;
@@ -666,7 +675,8 @@ Definition wf (d : doc) : bool :=
 (* the other library rules generated projects can trigger: unresolved references, a schema
    type outside the JSON-schema vocabulary (an alias of time.Time prints "date-time"), paths
    that do not start with a slash, two parameters with one name in one location, repeated
-   operation ids, templates that differ only in variable names *)
+   operation ids, templates that differ only in variable names, component keys outside the
+   identifier alphabet *)
 Definition valid_type (t : str) : bool :=
   one_of t ["object"; "string"; "integer"; "number"; "boolean"; "array"]%string.
 
@@ -688,10 +698,20 @@ Definition templates_distinct (d : doc) : bool :=
                                        negb (str_eqb (anon_template (dop_path o)) (anon_template (dop_path o'))))
                             (doc_ops d)) (doc_ops d).
 
+(* kin-openapi's ValidateIdentifier on the keys of components.*: ^[a-zA-Z0-9._-]+$ (a Go type name
+   may hold any unicode letter; such a project is refused) *)
+Definition ident_char (b : byte) : bool :=
+  let n := Byte.to_N b in
+  (N.leb 48 n && N.leb n 57) || (N.leb 65 n && N.leb n 90) || (N.leb 97 n && N.leb n 122) ||
+  N.eqb n 46 || N.eqb n 95 || N.eqb n 45.
+
+Definition valid_ident (n : str) : bool := negb (is_nil n) && forallb ident_char n.
+
 Definition lib_model_ok (d : doc) : bool :=
   kin_paths_ok d &&
   templates_distinct d &&
   refs_closed d &&
+  forallb (fun nc => valid_ident (fst nc)) (doc_comps d) &&
   forallb (fun nc => valid_type (k_type (snd nc))) (doc_comps d) &&
   forallb (fun o => has_prefix [slash] (dop_path o)) (doc_ops d) &&
   forallb (fun o => unique_params (dop_params o)) (doc_ops d) &&
